@@ -118,6 +118,14 @@ def splice_rows(cx, b, is_str, next_block):
                 return cstr(r0[3].get('start')), cstr(r0[3].get('end'))
             if is_agg(r0, r'core::ops::RangeFrom$') and isinstance(r0[3], dict):
                 return cstr(r0[3].get('start')), None
+            # m.range() / m.span().range(): the range of the match itself
+            if is_call(r0, r'util::search::Match::range$') and len(r0[2]) == 1:
+                return cstr(r0[2][0]) + '.span.start', cstr(r0[2][0]) + '.span.end'
+            if is_call(r0, r'util::search::Span::range$') and len(r0[2]) == 1:
+                sp = r0[2][0]
+                if is_call(sp, r'util::search::Match::span$') and len(sp[2]) == 1:
+                    return cstr(sp[2][0]) + '.span.start', cstr(sp[2][0]) + '.span.end'
+                return cstr(sp) + '.start', cstr(sp) + '.end'
         return 'other'
 
     def events(r):
